@@ -41,7 +41,8 @@ def c11 (op : String) (j : Json) : Except String Json := do
     let c ← getCircuit (← field j "circuit")
     let g ← getPauliStr (← field j "general")
     let idx ← getNatList (← field j "indices")
-    pure (jResult jCircuit (appendMeasurement c g idx))
+    let locs ← getOpt (fieldD j "locs" Json.null) getNatList
+    pure (jResult jCircuit (appendMeasurementLoc c g idx locs))
   | _ => throw s!"unknown op {op}"
 
 end CKT.Driver
